@@ -253,6 +253,57 @@ Proof.
   intros e l r v. rewrite <- ext_consts_over. apply subst_value. apply capture_free_consts.
 Qed.
 
+(* ---- round 6: chains of substitution steps ------------------------------------------------------------------------- *)
+Lemma rsim_trans : forall A (a b c : result A), rsim a b -> rsim b c -> rsim a c.
+Proof. intros A [x|ea] [y|eb] [z|ec]; cbn; intros H1 H2; try contradiction; auto. congruence. Qed.
+
+Lemma subst_chain_sim : forall ss e r, chain_free ss e = true ->
+  rsim (eval r (subst_chain ss e)) (eval (ext_chain r ss) e).
+Proof.
+  induction ss as [|s rest IH]; intros e r H; cbn in *.
+  - apply rsim_refl.
+  - apply andb_true_iff in H. destruct H as [H1 H2].
+    eapply rsim_trans; [apply IH; exact H2|]. apply subst_sim. exact H1.
+Qed.
+
+Lemma subst_chain_value : forall ss e r v, chain_free ss e = true ->
+  (eval r (subst_chain ss e) = Ok v <-> eval (ext_chain r ss) e = Ok v).
+Proof.
+  intros ss e r v Hc. pose proof (subst_chain_sim ss e r Hc) as H. unfold rsim in H.
+  destruct (eval r (subst_chain ss e)) as [x|]; destruct (eval (ext_chain r ss) e) as [y|]; try contradiction.
+  - subst. reflexivity.
+  - split; discriminate.
+Qed.
+
+(* steps that substitute NUMBERS only need no guard *)
+Lemma chain_free_consts : forall ls e, chain_free (map consts ls) e = true.
+Proof.
+  induction ls as [|l ls IH]; intros e; cbn; [reflexivity|]. rewrite capture_free_consts, IH. reflexivity.
+Qed.
+
+Lemma partial_chain_sim : forall ls e r,
+  rsim (eval r (subst_chain (map consts ls) e)) (eval (ext_chain r (map consts ls)) e).
+Proof. intros ls e r. apply subst_chain_sim. apply chain_free_consts. Qed.
+
+(* the scope of a chain is NOT the scope of the joint mapping: k + Sum(c*k, (k, 0, n)) with k := c first, then
+   c := 2, n := 3, evaluated where c = 5: the chain gives 2 + 2*(0+1+2+3) = 14 (the k bound by the Sum is another
+   variable and stays), the joint mapping {k := c, c := 2, n := 3} gives 5 + 12 = 17 *)
+Definition chain_e : expr := Bin BAdd (Var 10%N) (Sum 10%N (Const 0) (Var 6%N) (Bin BMul (Var 2%N) (Var 10%N))).
+Definition chain_s1 : list (N * expr) := [(10%N, Var 2%N)].
+Definition chain_s2 : list (N * expr) := [(2%N, Const (2 # 1)); (6%N, Const (3 # 1))].
+Definition chain_r : env := mk_env [(2%N, 5 # 1)] [] [].
+Lemma chain_nonvacuous :
+  (chain_free [chain_s1; chain_s2] chain_e = true) /\
+  (subst_chain [chain_s1; chain_s2] chain_e =
+    Bin BAdd (Const (2 # 1)) (Sum 10%N (Const 0) (Const (3 # 1)) (Bin BMul (Const (2 # 1)) (Var 10%N)))) /\
+  (exists v, eval chain_r (subst_chain [chain_s1; chain_s2] chain_e) = Ok v /\ v == 14 # 1) /\
+  (exists v, eval (ext_chain chain_r [chain_s1; chain_s2]) chain_e = Ok v /\ v == 14 # 1) /\
+  (exists v, eval chain_r (subst (chain_s1 ++ chain_s2) chain_e) = Ok v /\ v == 17 # 1).
+Proof.
+  split; [reflexivity|]. split; [reflexivity|].
+  repeat split; eexists; (split; [vm_compute; reflexivity | reflexivity]).
+Qed.
+
 (* every split of a scope l1 ++ l2 (a name bound twice: the first binding wins, as in the joint dict) *)
 Lemma lookup_app : forall A (l1 l2 : list (N * A)) x,
   lookup (l1 ++ l2) x = match lookup l1 x with Some v => Some v | None => lookup l2 x end.
